@@ -4,7 +4,7 @@
 EXTENDS Cors, Json, TLC
 VARIABLE cfg
 O1 == "https://o1.example"   O2 == "https://o2.example"
-OriginsC == {<<>>, <<"*">>, <<O1>>, <<O1, O2>>, <<"*", O1>>}
+OriginsC == {<<>>, <<"*">>, <<O1>>, <<O1, O2>>, <<"*", O1>>, <<O2, O1, O2>>}
 AllowC   == {<<>>, <<"*">>, <<"*", "X-A">>, <<"Content-Type">>, <<"Content-Type", "X-A">>, <<"Content-Type", "X-CSRF-Token", "X-Client-Id", "content-length">>}
 ExposeC  == {<<>>, <<"E1", "E2">>}
 MaxAgeC  == {0, -1, 50, -2}
